@@ -137,3 +137,22 @@ PROPS['C08'] = dict(
         [dict(target='exec', family='pool', mode='random', cases=300000, workers=14, timeout=3000),
          dict(target='exec', family='pool', mode='dfs', bound=2, workers=8, timeout=3000, args=['--dfs-cap', '100000'])]),
 )
+
+PROPS['C06'] = dict(
+    level='exploration',
+    assumptions=FIBER_ASSUME,
+    technique='rapidcheck stateful observer operation sequences x explorer schedules + bounded-exhaustive schedules of '
+              'two-observer programs; exactly-once / value / Tracked-payload oracle',
+    level_text='One fulfilling fiber (value, error, exception or dropped SharedPromise, optionally attaching through '
+               'the promise first) and 2..4 observer fibers run generated sequences of every observer operation on '
+               'their own copy or on a shared const reference, incl. coroutines, Share/Connect/Split and a final '
+               'Get&&; schedules from the explorer. Every callback/awaiter must fire exactly once and only after Set '
+               'began with the set value, Ready() must imply a readable value, the checksummed Tracked payload flags '
+               'moved-from/destroyed/torn reads, and payload and heap balance must be zero at quiescence.',
+    level_note='SC interleavings only; the move-out data race is C04\'s job. Trusts scheduler substrate and explorer.',
+    jobs=q(
+        [dict(target='shared', family='shared', mode='random', cases=20000, workers=12, timeout=600),
+         dict(target='shared', family='shared', mode='dfs', bound=1, workers=4, timeout=600, args=['--dfs-cap', '6000'])],
+        [dict(target='shared', family='shared', mode='random', cases=300000, workers=14, timeout=3000),
+         dict(target='shared', family='shared', mode='dfs', bound=2, workers=14, timeout=3000, args=['--dfs-cap', '150000'])]),
+)
